@@ -109,7 +109,8 @@ def converter_env():
 
 
 def run_per_rule_converter(ctx, fn: str, fin_sub: bool = False, referenced: bool = False, output: bool = True, fail_at: str | None = None,
-                           collect: bool = False, me=None, fail_with: BaseException | None = None, keep_pipeline: bool = False, output_format: str | None = None):
+                           collect: bool = False, me=None, fail_with: BaseException | None = None, keep_pipeline: bool = False, output_format: str | None = None,
+                           rule_type: str = "EVENT_COUNT", extended_condition: bool = False):
     """Backend.convert_rule / convert_correlation_rule interpreted (sa.tabulate, Proxy) on a stand-in rule with two queries.
     fail_at ∈ {None, 'pipeline', 'convert', 'finish', 'finalize'} makes that stage raise a (stand-in) SigmaError.
     Returns a namespace: ret, raised, stored, finalised_calls, errors, rule, me, error (the injected error object)."""
@@ -145,7 +146,7 @@ def run_per_rule_converter(ctx, fn: str, fin_sub: bool = False, referenced: bool
         def __eq__(self, o): return isinstance(o, _types.SimpleNamespace) and getattr(o, "title", None) == self.title
         def __hash__(self): return 1
 
-    rule = _Rule(_backreferences=[object()] if referenced else [], _output=output, source=None, generate=True, errors=[], rules=[], type=SigmaCorrelationType.EVENT_COUNT, condition=None, title="t",
+    rule = _Rule(_backreferences=[object()] if referenced else [], _output=output, source=None, generate=True, errors=[], rules=[], type=getattr(SigmaCorrelationType, rule_type), condition=(env["SigmaExtendedCorrelationCondition"]() if extended_condition else None), title="t",
                                   detection=_Detection(),
                                   set_conversion_result=lambda q: stored.append(list(q)), set_conversion_states=lambda st: None,
                                   get_conversion_result=lambda: list(stored[-1]), get_conversion_states=lambda: [])
@@ -169,8 +170,13 @@ def run_per_rule_converter(ctx, fn: str, fin_sub: bool = False, referenced: bool
     me.convert_condition = lambda c, st: stage("convert", c)
     me.finish_query = lambda rule_, q, st: stage("finish", f"fin({q})")
     me.finalize_query = finalize_query
+    def mk_corr(name):
+        def fn_(rule_, fmt, method):
+            trace.append(f"dispatch:{name}")
+            return corr(rule_, fmt, method)
+        return fn_
     for cm in ("event_count", "value_count", "value_sum", "value_avg", "value_percentile", "value_median", "temporal", "temporal_ordered", "extended_temporal", "extended_temporal_ordered"):
-        setattr(me, f"convert_correlation_{cm}_rule", corr)
+        setattr(me, f"convert_correlation_{cm}_rule", mk_corr(f"convert_correlation_{cm}_rule"))
     out = _types.SimpleNamespace(ret=None, raised=None, stored=stored, finalised_calls=finalised_calls, rule=rule, me=me, error=error, errors=None, trace=trace)
     try:
         out.ret = call_method(prog, B, fn, me, env, rule, output_format, interp_kwargs=IK) if fn == "convert_rule" else call_method(prog, B, fn, me, env, rule, output_format, None, interp_kwargs=IK)
